@@ -5,7 +5,7 @@
     (tip, tip, distance) entries, distances up to Qeq;  [len0]: a branch length, absent = 0. *)
 From Coq Require Import String ZArith QArith Bool Arith List Permutation.
 From GT Require Import Base.UTree Spec.Obs Spec.Induced Spec.Unrooted Model.Reroot Model.Prune
-     Proofs.PruneBase Proofs.PruneStep Proofs.PruneRoot Proofs.Prune Proofs.PruneSplits Proofs.PruneTotal Proofs.PruneOracle.
+     Proofs.PruneBase Proofs.PruneStep Proofs.PruneRoot Proofs.Prune Proofs.PruneSplits Proofs.PruneTotal Proofs.PruneOracle Proofs.PruneNegative.
 Import ListNotations.
 Local Close Scope Q_scope.
 Local Open Scope string_scope.
@@ -25,7 +25,12 @@ Print Assumptions C06_remove_tip.
 (** RemoveTips(revert, names...) on any well-formed tree without single-child nodes and with
     distinct tip names: the result is well formed, has no single-child inner node, its tips
     are exactly the requested ones (names that are not in the tree are ignored: [names] is
-    arbitrary), and the path length between any two remaining tips is unchanged *)
+    arbitrary), and the path length between any two remaining tips is unchanged.
+    HYPOTHESIS OF THE PATH-LENGTH CLAUSE: lengths are read through [len0] (Spec/Obs.v), which
+    counts the absent sentinel -1 AND every other negative length as 0.  For trees whose present
+    lengths are all >= 0 this is the path length; for trees with negative lengths the clause
+    speaks about the clamped lengths only, and with the lengths read as themselves it is false:
+    [C06_path_lengths_negative_refuted] below (known finding C06-negative-length-clamped-on-merge). *)
 Theorem C06_remove_tips_induced :
   forall revert names t t',
     wf t = true -> no_single t = true -> 2 <= degree t -> NoDup (leaves t) ->
@@ -35,6 +40,21 @@ Theorem C06_remove_tips_induced :
     dists_equiv (pairdists len0 t') (fP (kept revert names) (pairdists len0 t)).
 Proof. exact remove_tips_ok. Qed.
 Print Assumptions C06_remove_tips_induced.
+
+(** REFUTED with every present length read as itself ([len_raw], Spec/Induced.v): on
+    (t0:15/32,(t2,t1:-17/16):97/32,t3:-105/64) minus t2 the model (as the Go code: removeTip gives
+    the merged branch the length max(0,l1) + max(0,l2)) returns (t0:15/32,t3:-105/64,t1:97/32): the
+    t0-t1 path length goes from 39/16 to 7/2, while through [len0] it is 7/2 before and after.
+    The witness is inside the domain of the theorem above. *)
+Theorem C06_path_lengths_negative_refuted :
+  wf ng_wit = true /\ no_single ng_wit = true /\ degree ng_wit = 3 /\
+  exists t', remove_tips false ["t2"] ng_wit = Ok t' /\
+             dist_is len_raw ng_wit "t0" "t1" (39#16)%Q = true /\ dist_is len_raw t' "t0" "t1" (7#2)%Q = true /\
+             induced_dists_raw ng_wit t' ["t0"; "t1"; "t3"] = false /\
+             dist_is len0 ng_wit "t0" "t1" (7#2)%Q = true /\ dist_is len0 t' "t0" "t1" (7#2)%Q = true /\
+             induced_dists ng_wit t' ["t0"; "t1"; "t3"] = true.
+Proof. exact path_lengths_negative_refuted. Qed.
+Print Assumptions C06_path_lengths_negative_refuted.
 
 (** afterwards the tip-name table lists exactly the remaining tips (code after the fix
     "RemoveTips left the tip name index stale") *)
